@@ -8,6 +8,9 @@
 #include "dxcore.hpp"
 #include <bxdecay0/mdl_event_op.h>
 #include <memory>
+#include <csignal>
+#include <fcntl.h>
+#include <unistd.h>
 
 using bxdecay0::decay0_generator;
 
@@ -293,6 +296,24 @@ static bool fresh_like(const M & m, Impl & F)
   return true;
 }
 
+// a crash inside the library (abort from GSL or an assertion, a wild pointer) must end up as a violation that names the
+// history, not as a dead harness: the history being replayed is kept in a static buffer for the signal handler
+static char g_hist_buf[4096];
+static char g_crash_path[512];
+static void on_fatal(int sig)
+{
+  int fd = open(g_crash_path, O_WRONLY | O_CREAT | O_TRUNC, 0644);
+  if (fd >= 0) {
+    char b[64];
+    int n = snprintf(b, sizeof b, "signal %d\n", sig);
+    ssize_t w = write(fd, b, n);
+    w = write(fd, g_hist_buf, strlen(g_hist_buf));
+    (void)w;
+    close(fd);
+  }
+  _exit(77);
+}
+
 int main(int argc, char ** argv)
 {
   int depth = 5;
@@ -310,6 +331,9 @@ int main(int argc, char ** argv)
     FILE * f = freopen("/dev/null", "w", stderr);
     (void)f;
   }
+  snprintf(g_crash_path, sizeof g_crash_path, "%s.crash", out.c_str());
+  unlink(g_crash_path);
+  for (int sg : {SIGABRT, SIGSEGV, SIGFPE, SIGBUS, SIGILL}) signal(sg, on_fatal);
   std::vector<Op> ops;
   ops.push_back({"set_category(dbd)", 0, 1});
   ops.push_back({"set_category(background)", 0, 2});
@@ -356,6 +380,10 @@ int main(int argc, char ** argv)
       if (op.kind == 5 && n.m.nops >= 2) continue;
       if (op.kind == 8 && n.m.count >= 2) continue;
       // replay the history on a fresh object
+      {
+        std::string hh = hist_str(n.hist) + (n.hist.empty() ? "" : " ; ") + op.name;
+        snprintf(g_hist_buf, sizeof g_hist_buf, "%s", hh.c_str());
+      }
       Impl I;
       M m;
       int shots = 0;
